@@ -952,6 +952,24 @@ class C12:
             zr["elem"]["up"] = zr._owner
             zr["elem"]["len"] = zr["top"] * 2
             ex.count("default_container_with_cycle")
+            # a second label, registered THROUGH a reference (mgr.ref(top['sub'], label)): it stands for whatever object sits
+            # in that slot at the time of each access
+            sublabel = "y" + cfg["salt"]
+            zr["sub"] = type(zr._owner)()
+            sr = ex.world.mgr.ref(zr["sub"], sublabel)
+            sr["a"] = 1.0
+            sr["b"] = sr["a"] * 2
+
+        def check_sub(where, m, c, who):
+            """a new object is put into the slot behind the second label, then an assignment is made through that label"""
+            new = type(c)()
+            new["a"], new["b"] = 3.0, 0.0
+            m.containers[side]["sub"] = new
+            m.containers[sublabel]["a"] = c["top"] + 4.0
+            if c["sub"] is not new or not same(c["sub"]["a"], c["top"] + 4.0) or not same(c["sub"]["b"], (c["top"] + 4.0) * 2):
+                raise Violation(prop + ".side_container", "%s: in %s, after a new container was assigned to %s['sub'] and %s['a'] = %r was "
+                                "assigned through the label registered for that slot, the slot holds %r"
+                                % (where, who, side, sublabel, c["top"] + 4.0, dict(c["sub"])))
 
         def check_side(where, m1, m2):
             c1, c2 = m1.containers[side]._owner, m2.containers[side]._owner
@@ -965,6 +983,11 @@ class C12:
                 raise Violation(prop + ".side_container", "%s: an assignment in the restored %s gives %r there and %r in the original"
                                 % (where, side, c2["elem"]["len"], c1["elem"]["len"]))
             m1.containers[side]["top"] = c1["top"] + 1.0
+            if c1["sub"] is c2["sub"]:
+                raise Violation(prop + ".shared", "%s: the container behind label %s is shared with the original" % (where, sublabel))
+            check_sub(where, m2, c2, "the restored copy")
+            check_sub(where, m1, c1, "the original")
+            ex.count("label_registered_through_a_reference_rebound")
 
         other_model = [None]      # model of the manager that is left alone in the isolation modes (state at the restart)
 
